@@ -294,7 +294,15 @@ async fn exec(sys: &Sys, m: &mut Model, step: &Step, r: &mut Report) -> Option<(
             let want = m.buckets.get(b).and_then(|bk| bk.get(k)).cloned();
             let res = c.get_object().bucket(bn(*b)).key(kn(*k)).range(range.clone()).send().await;
             let status = sys.tap.0.lock().unwrap().last().and_then(|t| t.1.as_ref().map(|x| x.status)).unwrap_or(0);
-            let rclass = if range.starts_with("bytes=-") { "suffix" } else if range.ends_with('-') { "from" } else { "closed" };
+            let huge = range[6..].split('-').any(|n| n.len() > 9);
+            let rclass = match (range.starts_with("bytes=-"), range.ends_with('-'), huge) {
+                (true, _, false) => "suffix",
+                (true, _, true) => "suffix-with-a-huge-or-padded-number",
+                (false, true, false) => "from",
+                (false, true, true) => "from-with-a-huge-or-padded-number",
+                (false, false, false) => "closed",
+                (false, false, true) => "closed-with-a-huge-or-padded-number",
+            };
             let Some(o) = want else {
                 if res.is_ok() {
                     return Some((format!("get-range/absent-object-readable/{sc}"), json!({})));
@@ -595,7 +603,16 @@ fn gen_history(g: &mut Rng, len: usize, allow_big: bool) -> Vec<Step> {
             34..=39 => Step::Head { b, k },
             40..=54 => {
                 let size_guess = *g.pick(&[0u64, 1, 10, 100, 4096, 12_288]);
-                let range = match g.below(8) {
+                let range = match g.below(10) {
+                    // extremes: suffix lengths up to 2^64-1 (every non-zero suffix length is satisfiable on a non-empty object),
+                    // positions up to 2^63-1, zero-padded numbers
+                    8 => (*g.pick(&[
+                        "bytes=-9223372036854775807", "bytes=-9223372036854775808", "bytes=-18446744073709551615", "bytes=-4294967296", "bytes=0-9223372036854775807",
+                        "bytes=1-9223372036854775807", "bytes=9223372036854775807-", "bytes=9223372036854775806-9223372036854775807", "bytes=0-4294967295", "bytes=4294967296-",
+                        "bytes=-00000000000000000000000000000000000000007", "bytes=000000000000000000000000000001-000000000000000000000000000000000005", "bytes=00000000000000000000000000000000000000000000-",
+                    ]))
+                    .to_owned(),
+                    9 => format!("bytes={}-{}", size_guess.saturating_sub(g.range(0, 3) as u64), *g.pick(&[u64::from(u32::MAX), 1 << 32, (1 << 63) - 1, 1 << 40])),
                     0 => format!("bytes=-{}", g.range(1, 30)),
                     1 => format!("bytes=-{}", size_guess + g.range(1, 5000) as u64),
                     2 => "bytes=-0".to_owned(),
